@@ -32,3 +32,29 @@ def mc_corpus(ctx, programs, name="corpus", pieces=8):
 
 def distinct(programs):
     return {json.dumps(p, sort_keys=True) for p in programs}
+
+
+def sweep_programs(what, bases, n, per_prog=8):
+    return [{"fam": "sweep", "what": what, "bases": bases[i:i + per_prog], "n": n} for i in range(0, len(bases), per_prog)]
+
+
+def refine_sweep_failures(ctx, fails, name):
+    """A differing chunk digest only names the chunk: re-run that chunk value by value so that the judge names the value."""
+    import amlgen
+    progs = []
+    for f in fails:
+        if f.get("what") != "sweep_digest":
+            continue
+        base, n, kind = f["base"], f["n"], f["kind"]
+        if kind == "pkglen_incl":
+            ns = list(range(base, base + n))
+            progs += [{"fam": "pkglen", "ns": ns[i:i + 512], "incl": True} for i in range(0, n, 512)]
+        elif kind == "u32":
+            vals = [vlib.le(base * 65536 + k, 8) for k in range(n)]
+            progs += [{"fam": "ints", "vals": vals[i:i + 512]} for i in range(0, n, 512)]
+        elif kind == "eisa":
+            letters = chr(65 + base // 676) + chr(65 + (base // 26) % 26) + chr(65 + base % 26)
+            ids = [amlgen.chars(letters + "%04X" % k) for k in range(n)]
+            progs += [{"fam": "strs", "what": "eisa", "strs": ids[i:i + 512]} for i in range(0, n, 512)]
+    if progs:
+        judge(ctx, progs[:4096], name + "-refine")
